@@ -6210,9 +6210,15 @@ impl Deserialize for bit_vec::BitVec<u32> {
         if numbytes & (1 << 63) != 0 {
             //New format
             numbytes &= !(1 << 63);
-            let mut ret = bit_vec::BitVec::with_capacity(numbytes * 8);
+            let num_words = numbytes / 4;
+            // The storage must hold all the bits: set_len below is unchecked
+            if num_words.checked_mul(32).map(|capacity| numbits > capacity).unwrap_or(true) {
+                return Err(SavefileError::GeneralError {
+                    msg: format!("Corrupt BitVec: {} bits do not fit in {} bytes of storage", numbits, numbytes),
+                });
+            }
+            let mut ret = bit_vec::BitVec::with_capacity(num_words * 32);
             unsafe {
-                let num_words = numbytes / 4;
                 let storage = ret.storage_mut();
                 storage.resize(num_words, 0);
                 let storage_ptr = storage.as_ptr() as *mut u8;
@@ -6376,9 +6382,15 @@ impl Deserialize for bit_vec08::BitVec<u32> {
         if numbytes & (1 << 63) != 0 {
             //New format
             numbytes &= !(1 << 63);
-            let mut ret = bit_vec08::BitVec::with_capacity(numbytes * 8);
+            let num_words = numbytes / 4;
+            // The storage must hold all the bits: set_len below is unchecked
+            if num_words.checked_mul(32).map(|capacity| numbits > capacity).unwrap_or(true) {
+                return Err(SavefileError::GeneralError {
+                    msg: format!("Corrupt BitVec: {} bits do not fit in {} bytes of storage", numbits, numbytes),
+                });
+            }
+            let mut ret = bit_vec08::BitVec::with_capacity(num_words * 32);
             unsafe {
-                let num_words = numbytes / 4;
                 let storage = ret.storage_mut();
                 storage.resize(num_words, 0);
                 let storage_ptr = storage.as_ptr() as *mut u8;
